@@ -148,8 +148,20 @@ func runTrustStoreFS() int {
 		outside := filepath.Join(caseDir, "outside")
 		must(os.MkdirAll(outside, 0755))
 		x509dir := filepath.Join(cfg, "truststore", "x509")
+		// flat layout (half of the dot-only names): the directory such a name resolves to holds valid certificate FILES only -
+		// truststore/x509/<type> for ".", truststore/x509 for ".." - so nothing but the name rule can refuse it
+		flat := (in.Name == "dot" || in.Name == "dotdot") && mix(*flagSeed, c.ID, "flat")%2 == 1
+		decoyTypes := []string{"ca", "signingAuthority", "tsa", "bogus"}
+		if flat {
+			decoyTypes = nil
+			must(os.MkdirAll(x509dir, 0755))
+			if in.Name == "dot" && in.Type != "" {
+				must(os.MkdirAll(filepath.Join(x509dir, in.Type), 0755))
+				must(os.WriteFile(filepath.Join(x509dir, in.Type, "decoy-in-type-dir.crt"), pemOf(pki.decoy.Certs[0]), 0644))
+			}
+		}
 		// decoys: valid certificate files in sibling stores, in every type directory and in truststore/x509 itself
-		for _, t := range []string{"ca", "signingAuthority", "tsa", "bogus"} {
+		for _, t := range decoyTypes {
 			must(os.MkdirAll(filepath.Join(x509dir, t, "sibling"), 0755))
 			must(os.WriteFile(filepath.Join(x509dir, t, "sibling", "decoy.crt"), pemOf(pki.decoy.Certs[0]), 0644))
 			must(os.WriteFile(filepath.Join(x509dir, t, "decoy-in-type-dir.crt"), pemOf(pki.decoy.Certs[0]), 0644))
